@@ -2,7 +2,7 @@ package transport
 
 //vcheck:init github.com/lni/dragonboat/v4/internal/settings,github.com/lni/dragonboat/v4/raftpb,github.com/lni/dragonboat/v4/internal/fileutil,github.com/lni/dragonboat/v4/internal/server,github.com/lni/dragonboat/v4/internal/rsm,github.com/lni/dragonboat/v4/internal/transport
 //vcheck:scale internal/settings/hard.go SnapshotChunkSize 16
-//vcheck:bounds chunks: rsm block size / settings.SnapshotChunkSize scaled 2 MiB -> 16 B; many-chunk lemma: a 60-byte payload (4 blocks) cut into chunk 0 = header + 16 B and 24-byte chunks (>= 5 chunks), one altered byte at a symbolic position after the header with a symbolic mask, every chunk delivered regardless of refusals; sender chunk size set to 4 (arithmetic lemma, file sizes 1..13) or 1040 (end-to-end, so that the 1 KiB header fits the first chunk); one snapshot of 2-3 chunks (8 symbolic payload bytes, 0-2 external files of 3 and 2 symbolic bytes); one perturbation per run (drop / duplicate / swap / foreign sender / wrong deployment id / wrong binary version / corrupt byte / restart from chunk 0 / restart with a damaged chunk 0 followed by the rest of the first attempt) and one symbolic placement of the timeout ticks; two streams with different indexes for the non-interference lemma
+//vcheck:bounds chunks: rsm block size / settings.SnapshotChunkSize scaled 2 MiB -> 16 B; many-chunk lemma: a 60-byte payload (4 blocks) cut into chunk 0 = header + 16 B and 24-byte chunks (>= 5 chunks), one altered byte at a symbolic position after the header with a symbolic mask, every chunk delivered regardless of refusals; sender chunk size set to 4 (arithmetic lemma, file sizes 1..13) or 1040 (end-to-end, so that the 1 KiB header fits the first chunk); one snapshot of 2-3 chunks (8 symbolic payload bytes, 0-2 external files of 3 and 2 symbolic bytes); one perturbation per run (drop / duplicate / swap / foreign sender / wrong deployment id / wrong binary version / corrupt byte / restart from chunk 0 / restart with a damaged chunk 0 followed by the rest of the first attempt / take-over of the stream by another sender) and one symbolic placement of the timeout ticks; two streams with different indexes for the non-interference lemma
 //vcheck:stub chunks: file system = the real lni/vfs strict in-memory FS executed symbolically; CRC-32 as in C14; onReceive / confirm = recorders
 
 import (
@@ -185,7 +185,7 @@ func vTempDirGone(fs vfs.IFS) bool {
 // the next expected chunk of its stream from its sender with matching
 // deployment id / binary version is ignored without effect, and the stream
 // finalizes iff the accepted chunks are the complete valid sequence.
-//vcheck: reach=intact,dropped,duplicated,swapped,foreign,wrongdid,wrongbinver,corrupt,restarted,badrestart,done workers=16 forbid=.
+//vcheck: reach=intact,dropped,duplicated,swapped,foreign,wrongdid,wrongbinver,corrupt,restarted,badrestart,takeover,done workers=16 forbid=.
 func VHarness_C15_ReceiverEndToEnd() {
 	snapshotChunkSize = 1040
 	fs := vfs.NewMemFS()
@@ -221,7 +221,8 @@ func VHarness_C15_ReceiverEndToEnd() {
 		seq = append(seq, delivery{ch: chunks[i], expect: true})
 	}
 	complete := true
-	switch vChoose("perturbation", 10) {
+	wantFrom := uint64(1)
+	switch vChoose("perturbation", 11) {
 	case 0:
 		vReach("intact")
 	case 1: // drop chunk k: everything after it is out of order
@@ -344,6 +345,20 @@ func VHarness_C15_ReceiverEndToEnd() {
 		}
 		seq, complete = ns, false
 		vReach("badrestart")
+	case 10: // another sender takes the stream over (leader change mid-transfer, same snapshot index): its complete stream follows k chunks of the first sender
+		k := 1 + vChoose("k", n-1)
+		var ns []delivery
+		for i := 0; i < k; i++ {
+			ns = append(ns, seq[i])
+		}
+		for i := range seq {
+			x := seq[i]
+			x.ch.From = 3
+			ns = append(ns, x)
+		}
+		seq = ns
+		wantFrom = 3
+		vReach("takeover")
 	}
 	corrupt := false
 	for i := range seq {
@@ -363,7 +378,7 @@ func VHarness_C15_ReceiverEndToEnd() {
 		b := rec.batches[0]
 		vAssert(len(b.Requests) == 1 && b.Requests[0].Type == pb.InstallSnapshot, "notification-is-install-snapshot")
 		ss := b.Requests[0].Snapshot
-		vAssert(ss.Index == 100 && ss.Term == 5 && b.Requests[0].From == 1 && ss.Filepath == mainDst, "notification-describes-the-snapshot")
+		vAssert(ss.Index == 100 && ss.Term == 5 && b.Requests[0].From == wantFrom && ss.Filepath == mainDst, "notification-describes-the-snapshot")
 		dst, ok := vReadFile(fs, mainDst)
 		vAssert(ok && len(dst) == len(srcMain), "final-main-file-exists")
 		if ok && len(dst) == len(srcMain) {
